@@ -897,7 +897,7 @@ where
 
 /// get stored tx
 pub fn get_stored_tx<'a, T: ?Sized, C, K>(
-	w: &T,
+	w: &mut T,
 	tx_id: Option<u32>,
 	slate_id: Option<&Uuid>,
 ) -> Result<Option<Slate>, Error>
@@ -908,7 +908,12 @@ where
 {
 	let mut uuid = None;
 	if let Some(i) = tx_id {
-		let tx = w.tx_log_iter().find(|t| t.id == i);
+		// (log ids are numbered per account: the id means the active account's entry, as it does
+		// for every other call that takes one)
+		let parent_key_id = w.parent_key_id();
+		let tx = w
+			.tx_log_iter()
+			.find(|t| t.id == i && t.parent_key_id == parent_key_id);
 		if let Some(t) = tx {
 			uuid = t.tx_slate_id;
 		}
